@@ -193,6 +193,29 @@ func c13Cases() []buildCase {
 			rr(f)
 			addService(f, service("S", method("Get", ".t.v1.Req", ".t.v1.Ev")))
 		}),
+		one("discriminated oneof whose variant messages are nested in the owning message", func(f M) {
+			// protoc-gen-go renames the wrapper (Ev_Text_) because Ev_Text is the nested message
+			m := message("Ev", field("id", "string"), msgField("text", ".t.v1.Ev.Text"), msgField("image", ".t.v1.Ev.Image"))
+			m["nested_type"] = []any{message("Text", field("body", "string")), message("Image", field("url", "string"))}
+			fs := m["field"].([]any)
+			fs[1].(M)["oneof_index"], fs[2].(M)["oneof_index"] = 0, 0
+			m["oneof_decl"] = []any{M{"name": "content", "options": M{"[sebuf.http.oneof_config]": M{"discriminator": "type", "flatten": true}}}}
+			addMessage(f, m)
+			n := message("Notice", field("id", "string"), msgField("mail", ".t.v1.Notice.Mail"), field("plain", "string"))
+			n["nested_type"] = []any{message("Mail", field("to", "string"))}
+			nfs := n["field"].([]any)
+			nfs[1].(M)["oneof_index"], nfs[2].(M)["oneof_index"] = 0, 0
+			n["oneof_decl"] = []any{M{"name": "via"}}
+			addMessage(f, n)
+			n2 := message("Note2", field("id", "string"), msgField("mail", ".t.v1.Note2.Mail"), msgField("other", ".t.v1.Req"))
+			n2["nested_type"] = []any{message("Mail", field("to", "string"))}
+			n2fs := n2["field"].([]any)
+			n2fs[1].(M)["oneof_index"], n2fs[2].(M)["oneof_index"] = 0, 0
+			n2["oneof_decl"] = []any{M{"name": "via", "options": M{"[sebuf.http.oneof_config]": M{"discriminator": "kind"}}}}
+			addMessage(f, n2)
+			rr(f)
+			addService(f, service("S", method("Get", ".t.v1.Req", ".t.v1.Ev"), method("GetN", ".t.v1.Req", ".t.v1.Note2")))
+		}),
 		one("method and service headers", func(f M) {
 			rr(f)
 			m := cfgMethod("Get", ".t.v1.Req", ".t.v1.Resp", "GET", "/x/{id}")
